@@ -57,6 +57,26 @@ CLAIMED = {
                 "(trusted, correspondence only); the isoformat->parse round trip is not proved in Lean (partial).",
         "technique": "Lean 4 proof (digit-list arithmetic, case analysis) + generated tables + differential correspondence",
     },
+    "C19": {
+        "text": "Lean theorems over the tree model (nodes carry identities): detach/remove implemented as 'first node "
+                "that IS the given one' equals the specification 'erase the node named c' on every tree with unique "
+                "identities (so never a same-named sibling; the rest of the tree untouched; the very subtree is handed "
+                "back); removing a direct child = filter by identity (order kept); replaceChild locates the child by "
+                "identity and the content lands exactly in its place in order; prune keeps exactly the children "
+                "non-empty after their own pruning; clone yields fresh, pairwise distinct nodes and keeps text, "
+                "attributes and names; getChild = head of getChildren. Witness theorem for D1 (eq-based removal hits "
+                "the first same-named sibling; fixed in /repo). The model is tied to suds/sax/element.py by a "
+                "correspondence on real Element objects: all 2-step (3 thorough) histories over a 7-node tree with "
+                "four same-named siblings, and random histories up to length 25, compared node-for-node (identity, "
+                "parent links, order, attributes, text, prefix tables, lookup results) after every step; clone "
+                "equality/independence is checked on the real objects.",
+        "design_ref": "DESIGN.md section 6 C19, appendix A.3",
+        "note": "append/insert are exercised with detached nodes only; D21 (attribute prefix bound above a cloned "
+                "sub-node) is a known finding; namespace equality of cloned elements is checked on the implementation, "
+                "not proved.",
+        "technique": "Lean 4 proof (mutual structural induction over the nested tree; impl search = erase-by-identity "
+                     "spec) + differential correspondence on real Element objects",
+    },
 }
 
 NOT_YET = "check not built yet in this round (design in DESIGN.md section 6); not claimed"
